@@ -190,6 +190,26 @@ instance (d n w m) : Decidable (DialectOK d n w m) := by
   unfold DialectOK
   cases d.fill <;> infer_instance
 
+/-- `DialectOK` without its last clause: what the dialect needs whether or not the base is declared -/
+def DialectCore (d : UDialect) (n w : Nat) (m : Mesh) : Prop :=
+  0 ≤ d.base ∧
+  (match d.fill with
+   | .int v => ¬ (d.base ≤ v ∧ v < d.base + Int.ofNat n)
+   | .nan => d.store = .f64
+   | .nanAttr => d.store = .f64
+   | .none => ∀ f ∈ m, f.length = w)
+
+instance (d n w m) : Decidable (DialectCore d n w m) := by
+  unfold DialectCore
+  cases d.fill <;> infer_instance
+
+/-- the lowest node number any face uses (0 for a mesh without corners) -/
+def lowest (m : Mesh) : Nat := ((minList (m.flatten.map Int.ofNat)).getD 0).toNat
+
+/-- the same element lists counted from the lowest used index: what the rule "an undeclared base
+    is the smallest real entry" makes of a table -/
+def rebase (k : Nat) (m : Mesh) : Mesh := m.map (·.map (· - k))
+
 /-! ## explicit topology arrays (`_read_topology` → `_process_connectivity`) -/
 
 /-- REPAIRED `_process_connectivity(conn, orig_fv, start_index)`
@@ -397,6 +417,46 @@ def normLon (floor : K → K) (x : K) : K :=
 def setRange (floor : K → K) (gt180 : K → Bool) (l : List K) : List K :=
   if l.any gt180 then l.map (normLon floor) else l
 end Lon
+
+/-! ## Format sniffing (`uxarray/io/utils.py::_parse_grid_type`, dispatch in `Grid.from_dataset`) -/
+
+inductive Fmt where
+  | exodus | scrip | ugrid | mpas | esmf | geos | icon
+deriving DecidableEq, Repr
+
+/-- what `_parse_grid_type` looks at: presence of marker variables / dimensions / attributes -/
+structure Markers where
+  coord : Bool            -- variable `coord`
+  coordx : Bool           -- variable `coordx`
+  gridCenterLon : Bool    -- variable `grid_center_lon`
+  attrNodeCoords : Bool   -- some variable has attribute `node_coordinates`
+  attrFaceNode : Bool     -- some variable has attribute `face_node_connectivity`
+  attrTopoDim : Bool      -- some variable has attribute `topology_dimension`
+  roleMeshTopo : Bool     -- some variable has `cf_role = mesh_topology`
+  verticesOnCell : Bool   -- variable `verticesOnCell`
+  dimMaxNodePElement : Bool
+  dimNf : Bool
+  dimYC : Bool
+  dimXC : Bool
+  vertexOfCell : Bool     -- variable `vertex_of_cell`
+deriving DecidableEq, Repr
+
+/-- `_is_ugrid` -/
+def Markers.isUgrid (k : Markers) : Bool :=
+  k.roleMeshTopo && k.attrTopoDim && k.attrFaceNode && k.attrNodeCoords
+
+/-- `_parse_grid_type`: the first matching test wins; `none` = `RuntimeError("Could not
+    recognize dataset format.")` -/
+def sniff (k : Markers) : Option Fmt :=
+  if k.coord then some .exodus
+  else if k.coordx then some .exodus
+  else if k.gridCenterLon then some .scrip
+  else if k.isUgrid then some .ugrid
+  else if k.verticesOnCell then some .mpas
+  else if k.dimMaxNodePElement then some .esmf
+  else if k.dimNf && k.dimYC && k.dimXC then some .geos
+  else if k.vertexOfCell then some .icon
+  else none
 
 /-! ## Specification evaluated on the implementation's output (decidable) -/
 
